@@ -134,7 +134,7 @@ def load_known():
 
 
 def run_unit(unit_name, tier, seed):
-    rl = 20 if tier == 'quick' else 80
+    rl = 60 if tier == 'quick' else 240
     unverifiable = {}
     # Functions whose text the verifier rejects (unsupported construct after a source change) are replaced by
     # external_body stubs carrying their contract, so that the rest of the unit is still decided; the
